@@ -35,9 +35,43 @@ fn dec_names(f: &str) -> Vec<String> {
     if f == "~" { vec![] } else { f.split(',').map(dec_name).collect() }
 }
 
+/// `i.g3.*7`: events separated by `.`, an optional final `*K` repeated as often as `len` bytes can need
+fn parse_sink_script(s: &str, len: usize) -> Vec<Ev> {
+    let mut evs = vec![];
+    if s == "~" { return evs; }
+    for tok in s.split('.') {
+        if let Some(k) = tok.strip_prefix('*') {
+            let k: usize = k.parse().unwrap();
+            for _ in 0..(len + 2) { evs.push(Ev::Give(k)); }
+        } else if tok == "i" { evs.push(Ev::Intr) }
+        else if tok == "e" { evs.push(Ev::Fail) }
+        else { evs.push(Ev::Give(tok[1..].parse().unwrap())) }
+    }
+    evs
+}
+
 pub fn run(key: &str, a: &[String], out: &mut Out) {
     out.begin(key, a);
     match key {
+        "C20.write" => {
+            let bdd = Bdd::from_string(&a[0]);
+            let names = dec_names(&a[1]);
+            let pruned = a[2] == "1";
+            let refs: Vec<&str> = names.iter().map(|x| x.as_str()).collect();
+            let vs = match catch(|| BddVariableSet::new(&refs)) {
+                Some(vs) => vs,
+                None => { out.case(key, a, &[s("badset")]); return; }
+            };
+            let text = match catch(|| bdd.to_dot_string(&vs, pruned)) {
+                Some(t) => t,
+                None => { out.case(key, a, &[s("panic"), s("panic"), s("~")]); return; }
+            };
+            let mut sink = SWriter::new(&parse_sink_script(&a[3], text.len()));
+            let res = catch(|| bdd.write_as_dot_string(&mut sink, &vs, pruned));
+            let status = match &res { Some(Ok(())) => "ok", Some(Err(_)) => "err", None => "panic" };
+            let got = if sink.out == text.as_bytes() { s("=") } else { format!("x{}", hex(&sink.out)) };
+            out.case(key, a, &[format!("x{}", hex(text.as_bytes())), s(status), got]);
+        }
         "C20.dot" => {
             let bdd = Bdd::from_string(&a[0]);
             let names = dec_names(&a[1]);
